@@ -12,6 +12,10 @@
 (*               that connection's task UNDER THE MUX READ LOCK and handed *)
 (*               to the answer channel                                     *)
 (*                                                                         *)
+(* Requests of one subscriber run one after the other (the subscriber lock  *)
+(* serialises create / update / release); a recharge notification uses     *)
+(* neither link, so it may be served at any time without a step here.      *)
+(*                                                                         *)
 (* DEV_* constants switch the as-is behaviour:                             *)
 (*   DEV_ConnNeverClosed : the connection of a finished request stays open *)
 (*   DEV_BlockingHandoff : unbuffered channel, the handler blocks until a  *)
